@@ -1,5 +1,223 @@
+(* Properties_C20.v — C20: array objects keep their invariants under construction,
+   resize, element write, copy, assignment, cast and mutable views.
+   Statements only; every proof is [exact lemma].  All statements hold for EVERY
+   history, rank, extent, capacity, clip bound and both layouts. *)
 From NM Require Import Base Index IndexProofs Ndarray NdarrayProofs.
 Local Open Scope Z_scope.
-Theorem C20_placeholder : forall k, kind_wfb k = true -> kind_wfb k = true.
-Proof. intros k H. exact H. Qed.
-Print Assumptions C20_placeholder.
+
+(* the invariant: product of the shape = element count, strides_ = compute_strides(shape),
+   the offset functor is the one of the layout, the container-kind constraints hold *)
+Theorem C20_init_Inv : forall (A : Type) (dflt : A) k L,
+  kind_wfb k = true -> Inv A (init dflt k L).
+Proof. intros A dflt k L H. exact (Inv_init A dflt k L H). Qed.
+Print Assumptions C20_init_Inv.
+
+Theorem C20_step_preserves_Inv : forall (A : Type) (dflt : A) st o,
+  op_ok A o -> Inv A st -> Inv A (step dflt st o).
+Proof. intros A dflt st o. exact (step_preserves_Inv A dflt st o). Qed.
+Print Assumptions C20_step_preserves_Inv.
+
+(* after ANY history (fold over an arbitrary operation list; requests are lists of
+   non-negative extents, the right-hand side of an assignment is itself a consistent array) *)
+Theorem C20_history_Inv : forall (A : Type) (dflt : A) k L h,
+  kind_wfb k = true -> Forall (op_ok A) h -> Inv A (run dflt (init dflt k L) h).
+Proof.
+  intros A dflt k L h Hk Hh. apply (run_preserves_Inv A dflt h _ Hh). exact (Inv_init A dflt k L Hk).
+Qed.
+Print Assumptions C20_history_Inv.
+
+Theorem C20_reachable_Inv : forall (A : Type) (dflt : A) k L st,
+  kind_wfb k = true -> reachable A dflt k L st ->
+  Inv A st /\ (supported k L = true -> snd (st_off st) = layout_strides L (st_shape st)).
+Proof.
+  intros A dflt k L st Hk Hr. pose proof (reachable_Inv A dflt k L st Hk Hr) as HI.
+  split; [exact HI|]. intros Hs.
+  destruct (reachable_kind_layout A dflt k L st Hr) as [E1 E2].
+  rewrite <- E2 at 1. apply (Inv_offset_strides A st HI). now rewrite E1, E2.
+Qed.
+Print Assumptions C20_reachable_Inv.
+
+(* distinct in-bounds indices address distinct cells of the buffer, every in-bounds index
+   addresses a cell, and reading after writing returns the written value at that index
+   and the old value everywhere else (C01 applied to the invariant) *)
+Theorem C20_distinct_indices_distinct_cells : forall (A : Type) (st : state A) i j x,
+  Inv A st -> supported (st_kind st) (st_layout st) = true ->
+  inb i (st_shape st) -> inb j (st_shape st) ->
+  0 <= st_offset st i < Z.of_nat (length (st_data st))
+  /\ (st_offset st i = st_offset st j -> i = j)
+  /\ (exists v, get st i = Some v)
+  /\ get (write st i x) j = (if list_eq_dec Z.eq_dec j i then Some x else get st j).
+Proof.
+  intros A st i j x HI Hs Hi Hj.
+  destruct (distinct_indices_distinct_cells A st i j HI Hs Hi Hj) as (H1 & H2 & H3).
+  split; [exact H1|]. split; [exact H2|]. split; [exact H3|].
+  exact (get_write A st i j x HI Hs Hi Hj).
+Qed.
+Print Assumptions C20_distinct_indices_distinct_cells.
+
+(* a refused resize returns false and leaves shape, strides, offset functor and contents
+   unchanged — for every kind, every state (no invariant needed), every request *)
+Theorem C20_refused_resize_unchanged : forall (A : Type) (dflt : A) (st : state A) sizes,
+  nonneg sizes -> fst (resize dflt st sizes) = false -> resize dflt st sizes = (false, st).
+Proof. intros A dflt st sizes. exact (refused_resize_unchanged A dflt st sizes). Qed.
+Print Assumptions C20_refused_resize_unchanged.
+
+(* resize accepts exactly the requests that fit the kind (rank fits the shape container,
+   count fits the buffer, extents below the clip bounds), and an accepted resize installs
+   the requested shape with its strides *)
+Theorem C20_resize_accepts_iff_fits : forall (A : Type) (dflt : A) (st : state A) sizes,
+  Inv A st -> nonneg sizes ->
+  fst (resize dflt st sizes) = fits (st_kind st) sizes
+  /\ (fits (st_kind st) sizes = true ->
+      st_shape (snd (resize dflt st sizes)) = sizes
+      /\ st_strides (snd (resize dflt st sizes)) = compute_strides sizes
+      /\ Z.of_nat (length (st_data (snd (resize dflt st sizes)))) = prod sizes).
+Proof.
+  intros A dflt st sizes HI Hn. rewrite (resize_flag A dflt st sizes Hn), (precheck_fits A st sizes HI).
+  split; [reflexivity|]. intros Hf. rewrite <- (precheck_fits A st sizes HI) in Hf.
+  destruct (resize_accepted A dflt st sizes Hn Hf) as (d1 & E & Hl & _). rewrite E. cbn.
+  split; [reflexivity|]. split; [reflexivity|]. exact Hl.
+Qed.
+Print Assumptions C20_resize_accepts_iff_fits.
+
+(* cast to another array kind and / or element type: if the target kind holds the shape
+   (otherwise the C++ does not instantiate) the result has the same shape and every
+   element is the converted source element *)
+Theorem C20_cast_preserves : forall (A B : Type) (dfltB : B) (conv : A -> B) (st : state A) k' r,
+  nonneg (st_shape st) -> cast dfltB conv st k' = Some r ->
+  st_shape r = st_shape st
+  /\ forall idx, inb idx (st_shape st) ->
+       get r idx = Some (match get st idx with Some x => conv x | None => dfltB end).
+Proof.
+  intros A B dfltB conv st k' r Hn Hc.
+  destruct (cast_preserves A B dfltB conv st k' r Hn Hc) as (H1 & _ & _ & H4). split; assumption.
+Qed.
+Print Assumptions C20_cast_preserves.
+
+(* writing through a mutable view (ref / flatten / reshape / slice with step <> 0, both
+   directions): read-over-write at the view level, and at the source level exactly the
+   designated buffer cell changes *)
+Theorem C20_write_through : forall (A : Type) v L s (buf : list A) i j x,
+  pos s -> Z.of_nat (length buf) = prod s -> view_accepts v s = true ->
+  inb i (view_shape v s) -> inb j (view_shape v s) ->
+  vget v L s (vset v L s buf i x) j = (if list_eq_dec Z.eq_dec j i then Some x else vget v L s buf j)
+  /\ inb (view_index v s i) s
+  /\ let c := Z.to_nat (layout_offset L s (view_index v s i)) in
+     length (vset v L s buf i x) = length buf
+     /\ (c < length buf)%nat
+     /\ nth_error (vset v L s buf i x) c = Some x
+     /\ (forall k, k <> c -> nth_error (vset v L s buf i x) k = nth_error buf k).
+Proof.
+  intros A v L s buf i j x Hs Hl Hacc Hi Hj.
+  split; [exact (view_write_through v L s buf i j x Hs Hl Hacc Hi Hj)|].
+  pose proof (view_index_inb v s i Hs Hacc Hi) as Hq.
+  split; [exact Hq|]. exact (set_changes_one_cell A L s buf (view_index v s i) x Hl Hq).
+Qed.
+Print Assumptions C20_write_through.
+
+(* the index map of every accepted view is injective on the view's index space *)
+Theorem C20_view_index_injective : forall v s a b, pos s -> view_accepts v s = true ->
+  inb a (view_shape v s) -> inb b (view_shape v s) -> view_index v s a = view_index v s b -> a = b.
+Proof. exact view_index_inj. Qed.
+Print Assumptions C20_view_index_injective.
+
+(* legacy classes *)
+Theorem C20_hybrid_ndarray : forall (A : Type) (dflt : A) mx dm,
+  (1 <= dm)%nat ->
+  h_Inv A (h_init dflt mx dm)
+  /\ forall st sizes, h_Inv A st ->
+       (fst (h_resize st sizes) = false -> h_resize st sizes = (false, st))
+       /\ h_Inv A (snd (h_resize st sizes))
+       /\ fst (h_resize st sizes) = ((length sizes =? h_dim st)%nat && (prod sizes <=? Z.of_nat (h_max st))).
+Proof.
+  intros A dflt mx dm Hd. split; [exact (h_init_Inv A dflt mx dm Hd)|].
+  intros st sizes. exact (h_resize_spec A st sizes).
+Qed.
+Print Assumptions C20_hybrid_ndarray.
+
+Theorem C20_dynamic_ndarray_on_domain : forall (A : Type) (dflt : A) (st : dstate A) sizes i x,
+  nonneg sizes ->
+  d_Inv A (d_resize dflt st sizes) /\ d_shape (d_resize dflt st sizes) = sizes
+  /\ (d_Inv A st -> d_Inv A (d_write st i x)).
+Proof.
+  intros A dflt st sizes i x Hn. destruct (d_resize_Inv A dflt st sizes Hn) as [H1 H2].
+  split; [exact H1|]. split; [exact H2|]. exact (d_write_Inv A st i x).
+Qed.
+Print Assumptions C20_dynamic_ndarray_on_domain.
+
+(* ---------- refutations (the faithful model violates the full statement) ---------- *)
+
+(* a default-constructed dynamic_ndarray: shape () has product 1, the object has no element *)
+Theorem C20_dynamic_default_ctor_refuted : exists st : dstate Z, st = d_init /\ ~ d_Inv Z st.
+Proof. exists d_init. split; [reflexivity | exact (d_init_not_Inv Z)]. Qed.
+Print Assumptions C20_dynamic_default_ctor_refuted.
+
+(* strides() of a column-major array does not match the layout: after resize(2,3) the
+   member strides_ is (3,1) while the layout's strides are (1,2) *)
+Theorem C20_strides_accessor_colmajor_refuted :
+  exists st : state Z, reachable Z 0 (mkKind SDynamic BDynamic) ColMajor st
+    /\ st_strides st <> layout_strides ColMajor (st_shape st)
+    /\ snd (st_off st) = layout_strides ColMajor (st_shape st).
+Proof.
+  exists (snd (resize 0 (init 0 (mkKind SDynamic BDynamic) ColMajor) [2; 3])).
+  split; [apply r_resize; [apply r_init | repeat constructor; lia]|].
+  split; [vm_compute; discriminate | vm_compute; reflexivity].
+Qed.
+Print Assumptions C20_strides_accessor_colmajor_refuted.
+Theorem C20_strides_accessor_on_domain : forall (A : Type) (dflt : A) k st,
+  kind_wfb k = true -> reachable A dflt k RowMajor st -> st_strides st = layout_strides RowMajor (st_shape st).
+Proof.
+  intros A dflt k st Hk Hr. destruct (reachable_Inv A dflt k RowMajor st Hk Hr) as (_ & Hs & _). exact Hs.
+Qed.
+Print Assumptions C20_strides_accessor_on_domain.
+
+(* column-major array with a clipped shape: two distinct in-bounds indices address one cell *)
+Theorem C20_colmajor_clipped_aliasing_refuted :
+  exists st : state Z, reachable Z 0 (mkKind (SClipped [3; 4]) BDynamic) ColMajor st
+    /\ inb [1; 1] (st_shape st) /\ inb [0; 2] (st_shape st)
+    /\ st_offset st [1; 1] = st_offset st [0; 2].
+Proof.
+  exists (snd (resize 0 (init 0 (mkKind (SClipped [3; 4]) BDynamic) ColMajor) [2; 3])).
+  split; [apply r_resize; [apply r_init | repeat constructor; lia]|].
+  split; [vm_compute; repeat constructor; lia|]. split; [vm_compute; repeat constructor; lia|].
+  vm_compute. reflexivity.
+Qed.
+Print Assumptions C20_colmajor_clipped_aliasing_refuted.
+
+(* ---------- non-vacuity ---------- *)
+Definition k_fd := mkKind (SFixedDim 2) BDynamic.           (* std::array<size_t,2> shape, std::vector buffer *)
+Definition k_df := mkKind SDynamic (BFixed 6).              (* std::vector shape, std::array<T,6> buffer *)
+Definition k_bb := mkKind (SBounded 3) (BBounded 12).
+Definition k_cl := mkKind (SClipped [3; 4]) (BBounded 12).
+
+Example C20_nonvacuous_kinds : kind_wfb k_fd = true /\ kind_wfb k_df = true /\ kind_wfb k_bb = true /\ kind_wfb k_cl = true.
+Proof. repeat split. Qed.
+(* the two probes of DESIGN 6 #7 are refused and leave the state untouched; accepted requests change it *)
+Example C20_nonvacuous_refusal :
+  let s1 := snd (resize 0 (init 0 k_fd RowMajor) [2; 3]) in
+  resize 0 s1 [2; 3; 4] = (false, s1) /\ st_shape s1 = [2; 3] /\ length (st_data s1) = 6%nat
+  /\ resize 0 (init 0 k_df RowMajor) [2; 3; 4] = (false, init 0 k_df RowMajor)
+  /\ fst (resize 0 (init 0 k_df RowMajor) [2; 3]) = true
+  /\ fst (resize 0 (init 0 k_bb ColMajor) [2; 2; 2; 2]) = false
+  /\ fst (resize 0 (init 0 k_bb ColMajor) [2; 3; 4]) = false
+  /\ fst (resize 0 (init 0 k_bb ColMajor) [2; 3; 2]) = true
+  /\ fst (resize 0 (init 0 k_cl RowMajor) [4; 3]) = false
+  /\ fst (resize 0 (init 0 k_cl RowMajor) [3; 4]) = true.
+Proof. vm_compute. repeat split. Qed.
+Example C20_nonvacuous_history :
+  let h := [Resize [2; 3]; Write [1; 2] 7; Resize [2; 3; 4]; Copy; Write [0; 1] 5; Resize [3; 2]] in
+  Forall (op_ok Z) h /\ supported k_bb ColMajor = true
+  /\ st_shape (run 0 (init 0 k_bb ColMajor) h) = [3; 2]
+  /\ st_strides (run 0 (init 0 k_bb ColMajor) h) = [2; 1]
+  /\ snd (st_off (run 0 (init 0 k_bb ColMajor) h)) = [1; 3].
+Proof. split; [repeat constructor; lia | vm_compute; repeat split]. Qed.
+Example C20_nonvacuous_views :
+  view_accepts (VSlice [(1, 2, 2); (2, -1, 3)]) [4; 3] = true
+  /\ view_index (VSlice [(1, 2, 2); (2, -1, 3)]) [4; 3] [1; 0] = [3; 2]
+  /\ view_accepts (VReshape [3; 2]) [2; 3] = true /\ view_index (VReshape [3; 2]) [2; 3] [2; 0] = [1; 1]
+  /\ vset (VReshape [3; 2]) ColMajor [2; 3] [0; 1; 2; 3; 4; 5] [2; 0] 9 = [0; 1; 2; 9; 4; 5].
+Proof. vm_compute. repeat split. Qed.
+Example C20_nonvacuous_cast :
+  let src := write (snd (resize 0 (init 0 (mkKind SDynamic BDynamic) ColMajor) [2; 2])) [1; 0] 7 in
+  exists r, cast 0 (fun z => z + 1) src k_bb = Some r /\ st_shape r = [2; 2] /\ get r [1; 0] = Some 8 /\ get r [0; 1] = Some 1.
+Proof. eexists. vm_compute. repeat split. Qed.
